@@ -5,8 +5,8 @@ Import ListNotations.
 Local Open Scope N_scope.
 
 Inductive query : Set :=
-  | QCompute (chk : bool) (E : list sdef)      (* compute_layouts on a program with these structs *)
-  | QLayoutOf (chk : bool) (t : ty)            (* layout_of *)
+  | QCompute (E : list sdef)                   (* compute_layouts on a program with these structs *)
+  | QLayoutOf (t : ty)                         (* layout_of *)
   | QSpec (E : list sdef).                     (* the SysV specification (validated against clang) *)
 
 Inductive obs : Set :=
@@ -14,7 +14,8 @@ Inductive obs : Set :=
   | OSizeAlign (s a : N)
   | ODiag                                      (* by-value recursion diagnosed (either message) *)
   | OUnresolved
-  | OOverflow
+  | OTooLarge                                  (* LayoutError::TooLarge *)
+  | OOverflow                                  (* arithmetic-overflow panic: the model never produces it *)
   | ONeedsContext
   | OOther.
 
@@ -22,7 +23,7 @@ Definition obs_of_err (e : err) : obs :=
   match e with
   | ESelfRef | ECycle => ODiag
   | EUnresolved => OUnresolved
-  | EOverflow => OOverflow
+  | ETooLarge => OTooLarge
   | ENeedsContext => ONeedsContext
   | EInternal => OOther
   end.
@@ -35,8 +36,8 @@ Definition spec_obs (E : list sdef) : list (option (list N)) :=
 
 Definition run (q : query) : obs :=
   match q with
-  | QCompute chk E => match compute_layouts chk E with Ok (offs, _) => OLaid offs | Fail e => obs_of_err e end
-  | QLayoutOf chk t => match layout_of chk t with Ok (s, a) => OSizeAlign s a | Fail e => obs_of_err e end
+  | QCompute E => match compute_layouts E with Ok (offs, _) => OLaid offs | Fail e => obs_of_err e end
+  | QLayoutOf t => match layout_of t with Ok (s, a) => OSizeAlign s a | Fail e => obs_of_err e end
   | QSpec E => OLaid (spec_obs E)
   end.
 
@@ -47,7 +48,7 @@ Definition obs_eqb (a b : obs) : bool :=
   match a, b with
   | OLaid x, OLaid y => list_eqb (oeqb (list_eqb N.eqb)) x y
   | OSizeAlign s a, OSizeAlign s' a' => (s =? s') && (a =? a')
-  | ODiag, ODiag | OUnresolved, OUnresolved | OOverflow, OOverflow
+  | ODiag, ODiag | OUnresolved, OUnresolved | OOverflow, OOverflow | OTooLarge, OTooLarge
   | ONeedsContext, ONeedsContext | OOther, OOther => true
   | _, _ => false
   end.
